@@ -18,6 +18,7 @@ fn main() {
     match a.cmd() {
         "random" => random(&a),
         "prog" => progs(&a),
+        "schedule" => schedule_cmd(&a),
         "lifecycle" => lifecycle_cmd(&a),
         #[cfg(feature = "parallel")]
         "async" => async_cmd(&a),
@@ -62,6 +63,7 @@ fn random(a: &Args) {
     base.p_barrier = a.num("pbarrier", 0.08);
     base.p_dep = a.num("pdep", 0.3);
     base.inner_tl = a.flag("innertl");
+    base.p_nest = a.num("pnest", 0.0);
     base.p_unnamed = 0.1;
     let big_pool: usize = a.num("pool", 24);
     #[cfg(feature = "parallel")]
@@ -207,6 +209,7 @@ fn lifecycle_cmd(a: &Args) {
     base.p_tl = a.num("ptl", 0.12);
     base.p_batch = a.num("pbatch", 0.25);
     base.max_depth = a.num("depth", 3);
+    base.p_nest = a.num("pnest", 0.05);
     base.inner_tl = true;
     #[cfg(feature = "parallel")]
     let p4 = pool(4);
@@ -432,4 +435,85 @@ fn rendezvous_cmd(a: &Args) {
     }
     w.flush().unwrap();
     println!("{}", json!({"runs":runs,"stalls":stalls,"skipped_default_pool":skipped,"cores":cores,"samples":samples}));
+}
+
+/// exec schedule --in replay.txt --out trace.ndjson [--max N] : (registration sequence, eager
+/// schedule) behaviours emitted by TLC from MCShred, forced on the real dispatcher
+fn schedule_cmd(a: &Args) {
+    use shredh::execx::{run_dispatch_forced, Forced};
+    use std::io::BufRead;
+    let inp = a.get("in").expect("--in");
+    let out = a.get("out").expect("--out");
+    let seed: u64 = a.num("seed", 1);
+    let max: usize = a.num("max", 2000);
+    let quiet_us: u64 = a.num("quiet-us", 250);
+    let mut rng = StdRng::seed_from_u64(seed);
+    let mut w = BufWriter::new(File::create(out).unwrap());
+    #[cfg(feature = "parallel")]
+    let gate_pool = pool(a.num("pool", 8));
+    // reservoir-sample `max` behaviours (TLC's output order is not deterministic: sort first)
+    let mut lines: Vec<String> = std::io::BufReader::new(File::open(inp).unwrap())
+        .lines()
+        .map(|l| l.unwrap())
+        .filter(|l| l.starts_with("<<\"REPLAY\""))
+        .collect();
+    lines.sort();
+    let total = lines.len();
+    lines.shuffle(&mut rng);
+    lines.truncate(max);
+    let (mut n, mut layout_drift, mut followed, mut mismatch, mut deviations, mut nev) = (0usize, 0usize, 0usize, 0usize, 0usize, 0usize);
+    let mut samples = Vec::new();
+    for line in &lines {
+        let (Some(s), Some(e)) = (line.find("\"{"), line.rfind("}\"")) else { continue };
+        let Ok(inner) = serde_json::from_str::<String>(&line[s..e + 2]) else { continue };
+        let st: serde_json::Value = serde_json::from_str(&inner).unwrap();
+        let (prog, ids) = shredh::prog::prog_of_state(&st);
+        let mut res = Vec::new();
+        prog.resources(&mut res);
+        n += 1;
+        #[cfg(feature = "parallel")]
+        let p = gate_pool.clone();
+        #[cfg(not(feature = "parallel"))]
+        let p = ();
+        let variant = if rng.gen_bool(0.5) { Variant::identity(&res) } else { Variant::random(&res, &mut rng) };
+        let mut r = record_registration_pool(&prog, variant, n, 0, false, p);
+        let real: Vec<Vec<Vec<u64>>> = serde_json::from_value(r.rec.events.last().unwrap()["lay"].clone()).unwrap_or_default();
+        if r.dispatcher.is_none() || real != ids {
+            // the real plan is not the model's: nothing to force; the trace is still judged
+            layout_drift += 1;
+            nev += r.rec.events.len();
+            write_events(&mut w, &r.rec.events);
+            continue;
+        }
+        let world = setup_world(&mut r, false);
+        let steps: Vec<(String, usize)> = st["hist"]
+            .as_array()
+            .unwrap()
+            .iter()
+            .map(|x| (x[0].as_str().unwrap().to_string(), x[1].as_u64().unwrap() as usize))
+            .collect();
+        let mode = match st["mode"].as_str().unwrap_or("par") {
+            "seq" => Mode::Seq,
+            "disp" => Mode::Disp,
+            _ => Mode::Par,
+        };
+        let fs = run_dispatch_forced(&mut r, &world, mode, &Forced { steps: steps.clone() }, quiet_us);
+        if fs.deviations == 0 && fs.runset_mismatch == 0 {
+            followed += 1;
+        }
+        mismatch += (fs.runset_mismatch > 0) as usize;
+        deviations += (fs.deviations > 0) as usize;
+        // the model's predicted result must be the real one
+        nev += r.rec.events.len();
+        write_events(&mut w, &r.rec.events);
+        if samples.len() < 2 {
+            samples.push(json!({"prog": prog, "layout": ids, "schedule": steps}));
+        }
+    }
+    w.flush().unwrap();
+    println!(
+        "{}",
+        json!({"behaviours_emitted":total,"forced":n,"layout_drift":layout_drift,"followed_exactly":followed,
+               "runset_mismatch":mismatch,"deviated":deviations,"events":nev,"samples":samples})
+    );
 }
